@@ -1,8 +1,8 @@
 ---------------------------- MODULE ExecProtocol ----------------------------
 (***************************************************************************)
 (* The protocol of one Command's executor (crux_core/src/command/          *)
-(* executor.rs), independent of what its tasks do: slab of tasks, FIFO     *)
-(* ready queue of slab keys (stale and duplicate keys allowed), the        *)
+(* executor.rs), independent of what its tasks do: slab of tasks, ready    *)
+(* queue of slab keys (stale and duplicate keys allowed; order left open), *)
 (* run_until_settled loop (spawn_new_tasks at the loop top, drain the      *)
 (* ready queue, repeat until it is empty), run_task with the eviction      *)
 (* test, lazy abort.  One action per recorded event of the cfg(crux_verif) *)
@@ -32,17 +32,19 @@ VARIABLES
   cur,         \* the key taken from the queue / being polled
   \* @type: Bool;
   atTop,       \* at the top of the settle loop: spawn_new_tasks may run even if the queue is not empty
+  \* @type: Int;
+  curGen,      \* which waker the poll in flight was given (every poll makes a new one)
   \* @type: Bool;
-  wokeDuring,  \* the task being polled has been woken since its poll began
+  wokeDuring,  \* the task being polled has been woken through that waker since its poll began
   \* @type: Set(Int);
   pendingWake, \* keys woken and not polled (or removed) since: what "no wake-up is lost" is about
   \* @type: <<Int, Int>>;
   lens         \* <<effects, events>> queued when the last settle ended
 
-pvars == <<tasks, rq, phase, cur, atTop, wokeDuring, pendingWake, lens>>
+pvars == <<tasks, rq, phase, cur, curGen, atTop, wokeDuring, pendingWake, lens>>
 
 PInit(k) ==
-  /\ tasks = {k} /\ rq = <<k>> /\ phase = "idle" /\ cur = 0 /\ atTop = FALSE
+  /\ tasks = {k} /\ rq = <<k>> /\ phase = "idle" /\ cur = 0 /\ curGen = 0 /\ atTop = FALSE
   /\ wokeDuring = FALSE /\ pendingWake = {k} /\ lens = <<0, 0>>
 
 \* run_until_settled is entered; n: tasks.len() on entry
@@ -50,56 +52,63 @@ Settle(n) ==
   /\ phase = "idle"
   /\ n = Cardinality(tasks)
   /\ phase' = "run" /\ atTop' = TRUE
-  /\ UNCHANGED <<tasks, rq, cur, wokeDuring, pendingWake, lens>>
+  /\ UNCHANGED <<tasks, rq, cur, curGen, wokeDuring, pendingWake, lens>>
 
 \* the abort flag was set on entry: tasks.clear(), nothing is polled; queued outputs stay
 Cleared(ne, nv) ==
   /\ phase = "run" /\ atTop
   /\ tasks' = {} /\ pendingWake' = {}
   /\ phase' = "idle" /\ atTop' = FALSE /\ lens' = <<ne, nv>>
-  /\ UNCHANGED <<rq, cur, wokeDuring>>
+  /\ UNCHANGED <<rq, cur, curGen, wokeDuring>>
 
-\* spawn_new_tasks: only at the loop top, i.e. on entry or when the ready queue has been drained
+\* spawn_new_tasks (the code does it at the loop top, i.e. on entry or when the ready queue has been drained;
+\* no property depends on when inside a settle new tasks are taken in, so the protocol does not either)
 Spawn(k) ==
-  /\ phase = "run" /\ (atTop \/ rq = <<>>)
+  /\ phase = "run"
   /\ k \notin tasks
   /\ tasks' = tasks \cup {k}
   /\ rq' = Append(rq, k)
   /\ pendingWake' = pendingWake \cup {k}
   /\ atTop' = TRUE
-  /\ UNCHANGED <<phase, cur, wokeDuring, lens>>
+  /\ UNCHANGED <<phase, cur, curGen, wokeDuring, lens>>
 
-\* ready_queue.try_recv(): strictly first in, first out
+\* ready_queue.try_recv(): one entry leaves the queue (the code takes the oldest; no property asks for an
+\* order, so any one entry of k may be the one)
 Pop(k) ==
-  /\ phase = "run" /\ rq # <<>> /\ Head(rq) = k
-  /\ rq' = Tail(rq) /\ cur' = k /\ phase' = "popped" /\ atTop' = FALSE
-  /\ UNCHANGED <<tasks, wokeDuring, pendingWake, lens>>
+  /\ phase = "run"
+  /\ \E i \in DOMAIN rq :
+       /\ rq[i] = k /\ \A j \in DOMAIN rq : (j < i) => rq[j] # k
+       /\ rq' = SubSeq(rq, 1, i - 1) \o SubSeq(rq, i + 1, Len(rq))
+  /\ cur' = k /\ phase' = "popped" /\ atTop' = FALSE
+  /\ UNCHANGED <<tasks, curGen, wokeDuring, pendingWake, lens>>
 
 \* run_task: the key names no task (TaskState::Missing)
 Missing ==
   /\ phase = "popped" /\ cur \notin tasks
   /\ phase' = "run"
-  /\ UNCHANGED <<tasks, rq, cur, atTop, wokeDuring, pendingWake, lens>>
+  /\ UNCHANGED <<tasks, rq, cur, curGen, atTop, wokeDuring, pendingWake, lens>>
 
 \* run_task: the task's abort flag is set -- it completes without being polled
 AbortedTask ==
   /\ phase = "popped" /\ cur \in tasks
   /\ tasks' = tasks \ {cur} /\ pendingWake' = pendingWake \ {cur}
   /\ phase' = "run"
-  /\ UNCHANGED <<rq, cur, atTop, wokeDuring, lens>>
+  /\ UNCHANGED <<rq, cur, curGen, atTop, wokeDuring, lens>>
 
-Poll(k) ==
+\* g: the waker made for this poll
+Poll(k, g) ==
   /\ phase = "popped" /\ cur = k /\ k \in tasks
-  /\ phase' = "poll" /\ wokeDuring' = FALSE
+  /\ phase' = "poll" /\ wokeDuring' = FALSE /\ curGen' = g
   /\ pendingWake' = pendingWake \ {k}
   /\ UNCHANGED <<tasks, rq, cur, atTop, lens>>
 
-\* CommandWaker::wake_by_ref, at any time, by anybody who holds a waker (also a stale one)
-Wake(k) ==
+\* CommandWaker::wake_by_ref, at any time, by anybody who holds a waker -- also one of an earlier poll (g tells
+\* which): the key is queued all the same, but only the waker of the poll in flight raises that poll's flag
+Wake(k, g) ==
   /\ rq' = Append(rq, k)
-  /\ wokeDuring' = (wokeDuring \/ (phase = "poll" /\ k = cur))
+  /\ wokeDuring' = (wokeDuring \/ (phase = "poll" /\ k = cur /\ g = curGen))
   /\ pendingWake' = IF k \in tasks THEN pendingWake \cup {k} ELSE pendingWake
-  /\ UNCHANGED <<tasks, phase, cur, atTop, lens>>
+  /\ UNCHANGED <<tasks, phase, cur, curGen, atTop, lens>>
 
 \* the poll returned.  ready: Poll::Ready; lone: no clone of the poll's waker is left;
 \* flag: what the code read from the waker's `woken` flag -- it must be the truth
@@ -110,14 +119,14 @@ Polled(k, ready, lone, flag) ==
      /\ tasks' = IF gone THEN tasks \ {k} ELSE tasks
      /\ pendingWake' = IF gone THEN pendingWake \ {k} ELSE pendingWake
   /\ phase' = "run"
-  /\ UNCHANGED <<rq, cur, atTop, wokeDuring, lens>>
+  /\ UNCHANGED <<rq, cur, curGen, atTop, wokeDuring, lens>>
 
 \* run_until_settled returns: the queue is empty; nt = tasks.len()
 Settled(ne, nv, nt) ==
   /\ phase = "run" /\ rq = <<>>
   /\ nt = Cardinality(tasks)
   /\ phase' = "idle" /\ atTop' = FALSE /\ lens' = <<ne, nv>>
-  /\ UNCHANGED <<tasks, rq, cur, wokeDuring, pendingWake>>
+  /\ UNCHANGED <<tasks, rq, cur, curGen, wokeDuring, pendingWake>>
 
 \* is_done() right after a settle
 IsDone(v) ==
